@@ -109,6 +109,9 @@ def run_case(fn, *args):
     return pickle.loads(data)
 
 
+WATCHDOG_GRACE = 180.0
+
+
 def fork_map(fn, items, R, fatal_site, describe=repr, jobs=None, on_result=None):
     """Run fn(item, tally) for every item in `jobs` forked workers (static interleaved sharding, so
     the visiting order is deterministic). A worker that dies is an observed outcome: the item it was
@@ -157,11 +160,20 @@ def fork_map(fn, items, R, fatal_site, describe=repr, jobs=None, on_result=None)
         bufs = {}
         for pid, r, shard, start in procs:
             bufs[r] = []; sel.register(r, selectors.EVENT_READ)
+        killed = False
         while bufs and sel.get_map():
-            for key, _ in sel.select():
+            for key, _ in sel.select(timeout=5):
                 b = os.read(key.fd, 1 << 20)
                 if b: bufs[key.fd].append(b)
                 else: sel.unregister(key.fd)
+            # watchdog: workers test the deadline before every item, so only the item in flight can outlive it; an item
+            # takes well under a second — one still running GRACE seconds after the deadline does not terminate (e.g. an
+            # index computation in the library that never reaches its end); it is killed and reported as fatal for that item
+            if not killed and time.time() > deadline_abs + WATCHDOG_GRACE:
+                killed = True
+                for pid, r, shard, start in procs:
+                    try: os.kill(pid, 9)
+                    except OSError: pass
         sel.close()
         for pid, r, shard, start in procs:
             data = b"".join(bufs[r]); os.close(r)
